@@ -1,3 +1,114 @@
 import WireV.Cmd
+import WireP.Lemmas.CmdProofsList
+/-! # C18 — regenerating after any history leaves the file a fresh checkout would get
+
+Model: `WireV.stepH`, `WireV.runH` — histories of `switch v` (edit the sources), `gen`, `diff`,
+`delete p`, `clobber p c` over the abstract file system.  `A : Nat → LoadRes` is what analysis yields
+for each variant; by H-iso it does not depend on the file system (the generated file is excluded from
+loading by its build constraint).  `hs` is the header status of `diff`.
+
+Definitions (in `WireP.Lemmas.CmdProofsHist`, namespace `WireP.C18`):
+`GoodVariant A v` — `A v = .ok outs`, `outs ≠ []`, distinct output paths, every package without errors
+and with non-empty output; `outPaths (A v)` — the output paths; `freshFS A v` — what `gen` leaves
+starting from the empty file system.
+
+The unrestricted statement is FALSE (finding D11, `regen_stale_survives`): a package that has no Wire
+output any more keeps its stale `wire_gen.go`, and `diff` does not notice.  Hence `…_partial`. -/
 namespace WireP.C18
+open WireV
+
+/-- after any history that ends in `gen` while the current variant is a good `v`, every output file
+    holds exactly what `gen` writes on a fresh checkout, and that `gen` exits 0 -/
+theorem regen_fresh_partial (A : Nat → LoadRes) (hs v : Nat) (s : HState) (ops : List Op) :
+    GoodVariant A v → (runH A hs s ops).1.variant = v →
+    (∀ outs, A v = .ok outs → ∀ o ∈ outs,
+        fsGet (runH A hs s (ops ++ [.gen])).1.fs o.outPath = some o.content) ∧
+    (∀ p ∈ outPaths (A v), fsGet (runH A hs s (ops ++ [.gen])).1.fs p = fsGet (freshFS A v) p) ∧
+    (runH A hs s (ops ++ [.gen])).2.getLast? = some (some 0) ∧
+    (runH A hs s (ops ++ [.gen])).1.variant = v := fun hg hv =>
+  WireP.CmdProofs.regen_fresh_partial A hs v hg s ops hv
+
+/-- the form of the brief: any history, then `switch v; gen` -/
+theorem regen_fresh_switch_partial (A : Nat → LoadRes) (hs v : Nat) (s : HState) (ops : List Op) :
+    GoodVariant A v →
+    (∀ outs, A v = .ok outs → ∀ o ∈ outs,
+        fsGet (runH A hs s (ops ++ [.switch v, .gen])).1.fs o.outPath = some o.content) ∧
+    (∀ p ∈ outPaths (A v), fsGet (runH A hs s (ops ++ [.switch v, .gen])).1.fs p = fsGet (freshFS A v) p) ∧
+    (runH A hs s (ops ++ [.switch v, .gen])).2.getLast? = some (some 0) := fun hg =>
+  WireP.CmdProofs.regen_fresh_switch_partial A hs v hg s ops
+
+/-- paths that are not output paths of the current variant keep whatever the history left there
+    (any variant, good or not) -/
+theorem regen_other_paths_untouched (A : Nat → LoadRes) (hs : Nat) (s : HState) (ops : List Op) (p : Nat) :
+    p ∉ outPaths (A (runH A hs s ops).1.variant) →
+    fsGet (runH A hs s (ops ++ [.gen])).1.fs p = fsGet (runH A hs s ops).1.fs p :=
+  WireP.CmdProofs.regen_other_paths_untouched A hs s ops p
+
+/-- … whereas a fresh checkout has nothing there -/
+theorem fresh_other_paths_absent (A : Nat → LoadRes) (v p : Nat) :
+    p ∉ outPaths (A v) → fsGet (freshFS A v) p = none :=
+  WireP.CmdProofs.freshFS_other A v p
+
+/-- `gen` twice = `gen` once (pointwise) -/
+theorem gen_idempotent (A : Nat → LoadRes) (hs v : Nat) (s : HState) (p : Nat) :
+    GoodVariant A v → s.variant = v →
+    fsGet (stepH A hs (stepH A hs s .gen).1 .gen).1.fs p = fsGet (stepH A hs s .gen).1.fs p := fun hg hv =>
+  WireP.CmdProofs.gen_idempotent A hs v hg s hv p
+
+/-- `gen` twice = `gen` once, as states (the second `gen` re-inserts the entries in the same order) -/
+theorem gen_idempotent_list (A : Nat → LoadRes) (hs v : Nat) (s : HState) :
+    GoodVariant A v → s.variant = v →
+    (stepH A hs (stepH A hs s .gen).1 .gen).1 = (stepH A hs s .gen).1 := fun hg hv =>
+  WireP.CmdProofs.gen_idempotent_list A hs v hg s hv
+
+/-- `diff` right after `gen` reports no difference -/
+theorem diff_after_gen (A : Nat → LoadRes) (hs v : Nat) (s : HState) :
+    GoodVariant A v → s.variant = v →
+    (stepH A hs (stepH A hs s .gen).1 .diff).2 = some 0 := fun hg hv =>
+  WireP.CmdProofs.diff_after_gen A hs v hg s hv
+
+/-- `diff` does not change the state -/
+theorem diff_check_readonly (A : Nat → LoadRes) (hs : Nat) (s : HState) : (stepH A hs s .diff).1 = s :=
+  WireP.CmdProofs.diff_check_readonly A hs s
+
+/-- **finding D11**: the statement without `GoodVariant` fails.  Variant `v` has one package without
+    Wire output (path 7); the file system holds a stale generated file there.  After `gen` the stale
+    file is still there, `gen` and `diff` both exit 0, and a fresh checkout would have no such file. -/
+theorem regen_stale_survives (A : Nat → LoadRes) (hs v : Nat) (hA : A v = .ok [⟨7, false, 0⟩]) :
+    fsGet (runH A hs ⟨[(7, 5)], v⟩ [.gen, .diff]).1.fs 7 = some 5 ∧
+    (runH A hs ⟨[(7, 5)], v⟩ [.gen, .diff]).2 = [some 0, some 0] ∧
+    fsGet (freshFS A v) 7 = none := by
+  simp only [runH, stepH, freshFS, hA]
+  exact ⟨rfl, rfl, rfl⟩
+
+/-- the same witness on a closed instance, by evaluation -/
+theorem regen_stale_survives_closed :
+    (runH (fun _ => .ok [⟨7, false, 0⟩]) 2 ⟨[(7, 5)], 0⟩ [.gen, .diff]).1.fs = [(7, 5)] ∧
+    (runH (fun _ => .ok [⟨7, false, 0⟩]) 2 ⟨[(7, 5)], 0⟩ [.gen, .diff]).2 = [some 0, some 0] ∧
+    freshFS (fun _ => .ok [⟨7, false, 0⟩]) 0 = [] := by decide
+
+/-- hence the unrestricted claim "after `gen`, every path holds what a fresh checkout holds" is false -/
+theorem regen_fresh_full_false :
+    ¬ ∀ (A : Nat → LoadRes) (hs : Nat) (s : HState) (ops : List Op) (p : Nat),
+        fsGet (runH A hs s (ops ++ [.gen])).1.fs p = fsGet (freshFS A (runH A hs s ops).1.variant) p := fun h =>
+  absurd (h (fun _ => .ok [⟨7, false, 0⟩]) 2 ⟨[(7, 5)], 0⟩ [] 7) (by decide)
+
+/-! ## non-vacuity: two variants, histories with delete / clobber / switch -/
+
+private def A2 : Nat → LoadRes
+  | 0 => .ok [⟨10, false, 100⟩, ⟨20, false, 200⟩]
+  | 1 => .ok [⟨10, false, 101⟩, ⟨30, false, 300⟩]
+  | _ => .loadErr
+
+example : GoodVariant A2 0 := ⟨_, rfl, by decide, by decide, by decide⟩
+example : GoodVariant A2 1 := ⟨_, rfl, by decide, by decide, by decide⟩
+
+example : runH A2 2 ⟨[(20, 5)], 0⟩ [.gen, .diff, .clobber 10 66, .diff, .delete 20, .diff, .switch 1, .diff, .gen, .diff] =
+    (⟨[(30, 300), (10, 101)], 1⟩,
+     [some 0, some 0, none, some 1, none, some 1, none, some 1, some 0, some 0]) := rfl
+
+/-- file 20 (an output of variant 0 only) stays behind after switching to variant 1 — "other paths" -/
+example : (runH A2 2 ⟨[], 0⟩ [.gen, .switch 1, .gen]).1.fs = [(30, 300), (10, 101), (20, 200)] := by decide
+example : freshFS A2 1 = [(30, 300), (10, 101)] := by decide
+
 end WireP.C18
